@@ -50,10 +50,10 @@ var c12Vals = []string{"v", "", "é"}
 
 type c12Seen struct {
 	sessions int
-	calls  int
-	client wire.Parameters
-	server wire.Parameters
-	user   string
+	calls    int
+	client   wire.Parameters
+	server   wire.Parameters
+	user     string
 }
 
 func c12Server(cfg c12Config, seen *c12Seen) (*harness.One, wire.Parameters, error) {
@@ -323,10 +323,10 @@ func c12RunBad(cfg c12Config, b c12Bad) explore.Result {
 
 func init() {
 	explore.Register(&explore.Check{
-		ID:        "C12",
-		Level:     "model_checking",
-		Technique: "exhaustive enumeration of startup packets x server configurations on a real server (sequential part) and of all schedules of concurrently connecting users under a cooperative scheduler up to a preemption bound (schedule part, run by the C15 engine), against a reference description of the negotiation",
-		Rule:      "all startup key/value lists of <= n pairs over 4 keys x 3 values (duplicates included) x 20 server configurations (5 global maps x 2 versions x auth on/off); 8 malformed / cancel packets x 20 configurations; distinct = distinct (configuration, packet)",
+		ID:          "C12",
+		Level:       "model_checking",
+		Technique:   "exhaustive enumeration of startup packets x server configurations on a real server (sequential part) and of all schedules of concurrently connecting users under a cooperative scheduler up to a preemption bound (schedule part, run by the C15 engine), against a reference description of the negotiation",
+		Rule:        "all startup key/value lists of <= n pairs over 4 keys x 3 values (duplicates included) x 20 server configurations (5 global maps x 2 versions x auth on/off); 8 malformed / cancel packets x 20 configurations; distinct = distinct (configuration, packet)",
 		Assumptions: []string{"not asserted: order inside the ParameterStatus block; which duplicate of a repeated startup key wins; the value sent when a configured key collides with a standard parameter (either is accepted, exactly once)"},
 		Enumerate:   c12Enumerate,
 		Bounds: func(tier string) map[string]any {
